@@ -213,6 +213,56 @@ theorem runA_mono (c : Cfg) (a : ANode) (acts : List Act) : a.daInc ≤ (runA c 
   | nil => exact Nat.le_refl _
   | cons act acts ih => exact Nat.le_trans (stepA_mono c a act) (ih _)
 
+/-! ### initial height above 1: the inclusion loop starts at height 1, which does not exist -/
+
+/-- the DA-included height is 0 and the block the inclusion loop asks for next (height 1) is not stored, although the
+chain height is at least 1 -/
+structure NoIncl (c : Cfg) (a : ANode) : Prop where
+  pinv : Inv c a.n
+  inc : a.daInc = 0
+  h1 : 1 ≤ a.n.store.height
+  none1 : a.n.store.getBlock 1 = none
+
+theorem NoIncl.fresh (c : Cfg) (hih : 2 ≤ c.initialHeight) : NoIncl c { n := freshNode c } := by
+  obtain ⟨hh, hg, _, _⟩ := freshDisk_facts c
+  refine ⟨freshNode_inv c (by omega), rfl, ?_, ?_⟩
+  · show 1 ≤ (freshDisk c).height; rw [hh]; omega
+  · show (freshDisk c).getBlock 1 = none; rw [hg, if_neg (by omega)]
+
+theorem NoIncl.idle {c : Cfg} {a : ANode} (h : NoIncl c a) : includerIter a = (a, []) := by
+  apply includerIter_idle
+  unfold incNext recHeights
+  rw [h.inc, if_neg (by have := h.h1; omega), h.none1]
+
+theorem NoIncl.step {c : Cfg} {a : ANode} (h : NoIncl c a) (act : Act) : NoIncl c (stepA c a act) := by
+  cases act with
+  | produce r e =>
+    have hs := publish_store h.pinv r e
+    refine ⟨publish_inv h.pinv r e, h.inc, ?_, ?_⟩
+    · show 1 ≤ (publish c a.n r e).1.store.height
+      have := h.h1
+      rcases hs.1 with q | q <;> omega
+    · show (publish c a.n r e).1.store.getBlock 1 = none
+      rw [hs.2 1 h.h1]; exact h.none1
+  | subH s =>
+    obtain ⟨_, _, _, hi, _⟩ := headersIter_inv a s
+    exact ⟨inv_of_same_blocks h.pinv hi.frame.blocks hi.frame.height hi.frame.lastState,
+      hi.frame.daInc.trans h.inc, by show 1 ≤ (headersIter a s).1.n.store.height; rw [hi.frame.height]; exact h.h1,
+      by show (headersIter a s).1.n.store.getBlock 1 = none; rw [hi.frame.getBlock]; exact h.none1⟩
+  | subD s =>
+    obtain ⟨_, _, _, hi, _⟩ := dataIter_inv a s
+    exact ⟨inv_of_same_blocks h.pinv hi.frame.blocks hi.frame.height hi.frame.lastState,
+      hi.frame.daInc.trans h.inc, by show 1 ≤ (dataIter a s).1.n.store.height; rw [hi.frame.height]; exact h.h1,
+      by show (dataIter a s).1.n.store.getBlock 1 = none; rw [hi.frame.getBlock]; exact h.none1⟩
+  | incl =>
+    have : stepA c a .incl = a := by show (includerIter a).1 = a; rw [h.idle]
+    rw [this]; exact h
+
+theorem NoIncl.run {c : Cfg} {a : ANode} (h : NoIncl c a) (acts : List Act) : NoIncl c (runA c a acts) := by
+  induction acts generalizing a with
+  | nil => exact h
+  | cons act acts ih => exact ih (h.step act)
+
 /-! ### clean restart -/
 
 theorem restart_clean_keeps {c : Cfg} {a a' : ANode} (h : restart c a a.n.store true = some a')
@@ -223,9 +273,9 @@ theorem restart_clean_keeps {c : Cfg} {a a' : ANode} (h : restart c a a.n.store 
   split at h
   · simp at h
   · rename_i n ws hs
-    obtain ⟨_, _, _, hb⟩ := start_facts hs
+    obtain ⟨_, _, _, _, _, _, _, _, _, hb, hh, _⟩ := start_facts hs
     simp only [Option.some.injEq] at h
     subst h
-    exact ⟨rfl, rfl, (hb hst).1, (hb hst).2⟩
+    exact ⟨rfl, rfl, fun k => hb k (fun hn => absurd hn hst), hh⟩
 
 end Submit
